@@ -26,7 +26,8 @@ CLAIMED = {
     'C04': ('other',
             'Static, all-paths: scope push/pop pairing of every stacked member (MainSolver, Preprocessor), lockstep typestate between the '
             'interpreter scopes and solver pushes/pops, frontier/ok restoration on pop, unsat-mark propagation, frame-keyed CNF caches, '
-            'conflict-frame set by every engine, per-check reset calls, stale-guard ordering. Decides these necessary structural clauses; '
+            'conflict-frame set by every engine and equal, by abstract evaluation of each engine\'s own loop, to one more than the largest assumption order among the positive literals of the '
+            'final conflict, per-check reset calls, stale-guard ordering, reactivation of a switched-off variable when it reappears. Decides these necessary structural clauses; '
             'that learnt facts are logically confined to frames is value-dependent and not decided.',
             'static analysis: path-sensitive MUST-CALL / typestate walk over the structured mini-AST (LibTooling facts)', ''),
     'C21': ('other',
@@ -94,7 +95,7 @@ CLAIMED = {
             'loop body: exactly one bound of every row variable is cited, of the kind cancellation requires, with a coefficient of abstract sign positive; the violated '
             'bound of the basic variable comes first with weight 1; the two-literal conflicts of assertBound have positive literal weights and opposite kinds; '
             'storeExplanation stores bound and coefficient unchanged and is the single writer of the vector both interpolators read. Necessary shape of every row '
-            'certificate; the numeric cancellation (tableau values) is not decided.',
+            'certificate; the numeric cancellation (tableau values) is not decided. The weight of a row variable is the row coefficient itself or its negation (the basic variable enters with the literal 1).',
             'static analysis: special-purpose abstract interpretation (sign domain, case split on the two guards) over the structured mini-AST + dataflow/who-writes rules', ''),
     'C29': ('other',
             'Static assert-only / rejecting-gate rules (assert is compiled out of the release binary): the difference-logic atom intake tests every shape requirement on '
@@ -116,7 +117,7 @@ CLAIMED = {
             'exhaustive truth table over the template (arities 1..4 for n-ary gates), to be a consequence of the gate definition; dispatch pairs each connective with its own '
             'encoder and pushes all children; top-level emitters and literal signs are exact; let bindings are parsed before any is inserted; SatELite elimination never '
             'touches a frozen variable (code no baseline test executes). Necessary conditions only: conflict analysis, theory explanations, preprocessing and the theory '
-            'solvers are value-dependent and not decided.',
+            'solvers are value-dependent and not decided. The arithmetic preprocessing\'s conflict test relies on polynomials keeping no zero term: only PolynomialT\'s own methods write a coefficient.',
             'static analysis: clause-template extraction by abstract interpretation of the encoders + exhaustive propositional check of the template; guard/dominance rules', ''),
     'C02': ('other',
             'Static: the extracted clause templates are complete (they imply the gate definition); every model-found exit of the CDCL loop, the lookahead loop and the '
@@ -212,7 +213,7 @@ CLAIMED = {
             'Static: (1) UB-obligation engine - every compiler-inserted sanitizer obligation (signed overflow, narrowing, sign change, float cast) in FastRational.h/.cc is '
             'either deleted by LLVM -O2 range analysis or listed in a table with a written justification and the guards it relies on (guards must still be present); the IR '
             'is only read; (2) commit-after-check: no operand field is written on a path that can still branch to the GMP fallback; (3) every fallback tail re-canonicalises '
-            '(equal values, equal representation); (4) the word paths of gcd/lcm work on absolute values like the GMP paths. Absence of unguarded wrap-around and these '
+            '(equal values, equal representation); (4) the word paths of gcd/lcm work on absolute values like the GMP paths. (5) every path that writes the word fields of a parameter passes a representation mark before it returns. Absence of unguarded wrap-around and these '
             'protocol clauses, not correctness of the arithmetic.',
             'static analysis: compiler-discharged sanitizer obligations read from LLVM IR + frozen justified residual table; path-sensitive commit-after-check walk', 'clang 14.0.6 -O2 as the discharging analysis'),
     'C27': ('other',
